@@ -38,6 +38,7 @@ typedef int c_enum;
 typedef int c_tabid;   /* pointer to one of the constant tables of the TU (read-only, indexable) */
 typedef int c_opaque;  /* object that is not modelled; never read */
 typedef int c_strid;   /* identity of a string literal */
+typedef unsigned long c_vecit;     /* an iterator of a modelled vector / string: the element position (the container is known statically) */
 typedef unsigned long c_textptr;   /* a `const char*` / string_view iterator: position in the unit's ghost text buffer */
 
 /* ---- exceptions: a throw sets the ghost flag and returns; callers propagate ---------------- */
